@@ -702,6 +702,17 @@ func (w *Worker) doTaskAttempt(
 		case RecordFlagNack:
 			err := acker.Nack(ctx, subBatch, t.ID())
 			if err != nil {
+				if _, isProcessor := t.(*ProcessorTask); isProcessor {
+					// A processor rejected these records and the DLQ did not
+					// absorb the rejection (DLQ disabled, nack threshold
+					// exceeded, DLQ write failed). That is deterministic: a
+					// recovery restart re-reads the same records and the
+					// processor rejects them again, an endless loop of
+					// restarts with the default (infinite) retries. The
+					// stream engine makes the same decision
+					// (ProcessorNode: "error executing processor").
+					return cerrors.FatalError(cerrors.Errorf("error executing processor: %w", err))
+				}
 				return err
 			}
 		case RecordFlagRetry:
